@@ -1,3 +1,5 @@
 import PfVerif.Audit.Tool
 import PfVerif.Props.C08
+import PfVerif.Lemmas.C08Dual
 #audit_module PfVerif.Props.C08
+#audit_module_ns PfVerif.Lemmas.C08Dual PfVerif.C08Dual
